@@ -9,6 +9,9 @@
 //!       channel closures, payment outcomes)
 //!   E3  a copy that is told about the last d < 6 blocks being disconnected and then connected
 //!       again ends up with the same conclusions as one that never saw the reorganisation
+//!       (block-oriented `Listen` throughout, or transaction-oriented `Confirm` throughout)
+//! When the world itself reorganises (real competing forks, `World::reorg`), every copy is told in its
+//! own style as well and E1 goes on being judged at every common tip of the new branch.
 //! (E2, irreversible conclusions only after the anti-reorg depth, is judged on the original by the
 //! on-chain monitor.)
 use crate::chain::Block;
@@ -36,8 +39,11 @@ pub enum Style {
 	SkippingTips,
 	/// `Listen::filtered_block_connected`
 	FilteredBlocks,
-	/// every now and then the last d < 6 blocks are disconnected and connected again
+	/// `Listen` throughout; every now and then the last d < 6 blocks are disconnected and connected again
 	ShallowReorgs,
+	/// `Confirm` throughout; every now and then the transactions of the last d < 6 blocks are unconfirmed,
+	/// the fork point announced as the tip, and the same blocks confirmed again
+	ShallowReorgsConfirm,
 }
 
 pub struct Copy {
@@ -46,6 +52,8 @@ pub struct Copy {
 	pub node: Node,
 	pub events: Vec<String>,
 	pub told_tip: u32,
+	/// the highest tip this copy was ever told
+	pub max_told: u32,
 	skipped: u32,
 }
 
@@ -70,7 +78,7 @@ pub fn event_key(e: &Event) -> Option<String> {
 
 pub fn make_copies(sim: &mut Sim, rng: &mut Rng, rep: &mut Report) -> Vec<Copy> {
 	let mut out = vec![];
-	let styles = [Style::Reference, Style::TipFirst, Style::ManagerFirst, Style::Duplicated, Style::SkippingTips, Style::FilteredBlocks, Style::ShallowReorgs];
+	let styles = [Style::Reference, Style::TipFirst, Style::ManagerFirst, Style::Duplicated, Style::SkippingTips, Style::FilteredBlocks, Style::ShallowReorgs, Style::ShallowReorgsConfirm];
 	for n in 0..sim.w.nodes.len() {
 		sim.w.complete_all(n);
 		sim.w.process_events(n);
@@ -88,7 +96,7 @@ pub fn make_copies(sim: &mut Sim, rng: &mut Rng, rep: &mut Report) -> Vec<Copy> 
 			match Node::reload(n, node.cfg.clone(), &log, sim.w.fee_now, &mgr_bytes, &monitors, Disk::default(), node.generation + 1000 + k as u64) {
 				Ok(c) => {
 					rep.count("c11_copies_made");
-					let mut cp = Copy { of: n, style, node: c, events: vec![], told_tip: sim.w.chain.height(), skipped: 0 };
+					let mut cp = Copy { of: n, style, node: c, events: vec![], told_tip: sim.w.chain.height(), max_told: sim.w.chain.height(), skipped: 0 };
 					// (a node that was just read back replays events its predecessor had already handled: not conclusions
 					// drawn from the chain that follows)
 					drain(&mut cp, &sim.w);
@@ -138,7 +146,7 @@ fn give(c: &mut Copy, b: &Block, w: &crate::sim::World, rng: &mut Rng) {
 	let mon = c.node.mon.clone();
 	let style = c.style;
 	match style {
-		Style::Reference | Style::ShallowReorgs => {
+		Style::Reference | Style::ShallowReorgsConfirm => {
 			mon.transactions_confirmed(&b.header, &txdata, b.height);
 			c.node.mgr.transactions_confirmed(&b.header, &txdata, b.height);
 			mon.best_block_updated(&b.header, b.height);
@@ -184,33 +192,99 @@ fn give(c: &mut Copy, b: &Block, w: &crate::sim::World, rng: &mut Rng) {
 				c.skipped += 1;
 			}
 		},
-		Style::FilteredBlocks => {
+		Style::FilteredBlocks | Style::ShallowReorgs => {
 			Listen::filtered_block_connected(&*mon, &b.header, &txdata, b.height);
 			Listen::filtered_block_connected(&c.node.mgr, &b.header, &txdata, b.height);
 			c.told_tip = b.height;
 		},
 	}
 	drain(c, w);
-	if c.style == Style::ShallowReorgs && rng.chance(1, 6) {
+	if (c.style == Style::ShallowReorgs || c.style == Style::ShallowReorgsConfirm) && rng.chance(1, 6) {
 		// disconnect the last d blocks, then connect the very same blocks again
+		// (never below the sixth block under the highest tip ever seen: what had six confirmations stays)
 		let d = 1 + rng.below(5) as u32;
 		let base = crate::chain::BASE_HEIGHT;
-		if b.height > base + d + 1 {
+		if b.height > base + d + 1 && b.height - d + 5 >= w.peak_height.max(c.max_told) {
 			let fork = w.chain.block_at(b.height - d);
-			let loc = BlockLocator::new(fork.header.block_hash(), fork.height);
-			Listen::blocks_disconnected(&*mon, loc.clone());
-			Listen::blocks_disconnected(&c.node.mgr, loc);
+			if c.style == Style::ShallowReorgs {
+				let loc = BlockLocator::new(fork.header.block_hash(), fork.height);
+				Listen::blocks_disconnected(&*mon, loc.clone());
+				Listen::blocks_disconnected(&c.node.mgr, loc);
+			} else {
+				let gone: Vec<bitcoin::BlockHash> = ((b.height - d + 1)..=b.height).map(|h| w.chain.block_at(h).header.block_hash()).collect();
+				unconfirm(c, &gone);
+				mon.best_block_updated(&fork.header, fork.height);
+				c.node.mgr.best_block_updated(&fork.header, fork.height);
+			}
 			drain(c, w);
 			for h in (b.height - d + 1)..=b.height {
 				let bb = w.chain.block_at(h);
 				let td: Vec<(usize, &Transaction)> = bb.txs.iter().enumerate().map(|(i, t)| (i + 1, t)).collect();
-				mon.transactions_confirmed(&bb.header, &td, bb.height);
-				c.node.mgr.transactions_confirmed(&bb.header, &td, bb.height);
-				mon.best_block_updated(&bb.header, bb.height);
-				c.node.mgr.best_block_updated(&bb.header, bb.height);
+				if c.style == Style::ShallowReorgs {
+					Listen::filtered_block_connected(&*mon, &bb.header, &td, bb.height);
+					Listen::filtered_block_connected(&c.node.mgr, &bb.header, &td, bb.height);
+				} else {
+					mon.transactions_confirmed(&bb.header, &td, bb.height);
+					c.node.mgr.transactions_confirmed(&bb.header, &td, bb.height);
+					mon.best_block_updated(&bb.header, bb.height);
+					c.node.mgr.best_block_updated(&bb.header, bb.height);
+				}
 				drain(c, w);
 			}
 		}
+	}
+}
+
+/// `Confirm`-style: everything the copy watches that was confirmed in one of the blocks `gone`.
+fn unconfirm(c: &mut Copy, gone: &[bitcoin::BlockHash]) {
+	let mon = c.node.mon.clone();
+	for (txid, _, bh) in Confirm::get_relevant_txids(&*mon) {
+		if bh.map(|h| gone.contains(&h)).unwrap_or(false) {
+			mon.transaction_unconfirmed(&txid);
+		}
+	}
+	for (txid, _, bh) in Confirm::get_relevant_txids(&c.node.mgr) {
+		if bh.map(|h| gone.contains(&h)).unwrap_or(false) {
+			c.node.mgr.transaction_unconfirmed(&txid);
+		}
+	}
+}
+
+/// The world reorganised: `gone` left the active chain, whose tip is the fork point now.
+pub fn on_reorg(sim: &mut Sim, copies: &mut Vec<Copy>, gone: &[Block], rng: &mut Rng, rep: &mut Report) {
+	let fork = sim.w.chain.tip().clone();
+	let hashes: Vec<bitcoin::BlockHash> = gone.iter().map(|b| b.header.block_hash()).collect();
+	for c in copies.iter_mut() {
+		rep.count("c11_copies_told_of_a_real_reorg");
+		match c.style {
+			Style::FilteredBlocks | Style::ShallowReorgs => {
+				if c.told_tip > fork.height {
+					let loc = BlockLocator::new(fork.header.block_hash(), fork.height);
+					Listen::blocks_disconnected(&*c.node.mon, loc.clone());
+					Listen::blocks_disconnected(&c.node.mgr, loc);
+					c.told_tip = fork.height;
+				}
+			},
+			_ => {
+				unconfirm(c, &hashes);
+				// the fork point may or may not be announced as a tip of its own before the competing blocks
+				if c.style != Style::SkippingTips && rng.chance(1, 2) {
+					if c.style == Style::ManagerFirst {
+						c.node.mgr.best_block_updated(&fork.header, fork.height);
+						c.node.mon.best_block_updated(&fork.header, fork.height);
+					} else {
+						c.node.mon.best_block_updated(&fork.header, fork.height);
+						c.node.mgr.best_block_updated(&fork.header, fork.height);
+					}
+					c.told_tip = fork.height;
+				} else if c.told_tip > fork.height {
+					// its tip is a block that is gone; it hears of the branch with the next tip it is told
+					c.told_tip = u32::MAX;
+				}
+			},
+		}
+		c.skipped = 0;
+		drain(c, &sim.w);
 	}
 }
 
@@ -241,8 +315,20 @@ pub fn on_block(sim: &mut Sim, copies: &mut Vec<Copy>, rng: &mut Rng, rep: &mut 
 		c.node.mon.rebroadcast_pending_claims();
 		drain(c, &sim.w);
 	}
+	for c in copies.iter_mut() {
+		if c.told_tip != u32::MAX {
+			c.max_told = c.max_told.max(c.told_tip);
+		}
+	}
 	for c in copies.iter() {
 		if c.told_tip != b.height {
+			continue;
+		}
+		// maturity (confirmation counts, relative and absolute locks) is a matter of the highest tip a node has
+		// seen: a copy that was spared tips of a branch that is gone now has not been told what the original
+		// has, and is compared again once it has seen a tip as high as the highest one
+		if c.max_told < sim.w.peak_height {
+			rep.count("c11_comparisons_skipped_copy_never_saw_the_highest_tip");
 			continue;
 		}
 		rep.count("c11_e1_conclusion_comparisons");
@@ -252,7 +338,7 @@ pub fn on_block(sim: &mut Sim, copies: &mut Vec<Copy>, rng: &mut Rng, rep: &mut 
 		if a != bb {
 			let only_a: Vec<&String> = a.iter().filter(|x| !bb.contains(x)).take(3).collect();
 			let only_b: Vec<&String> = bb.iter().filter(|x| !a.contains(x)).take(3).collect();
-			let rule = if c.style == Style::ShallowReorgs { "E3-shallow-reorg" } else { "E1-delivery-independence" };
+			let rule = if c.style == Style::ShallowReorgs || c.style == Style::ShallowReorgsConfirm { "E3-shallow-reorg" } else { "E1-delivery-independence" };
 			sim.raised.push(("C11".into(), rule.into(), format!("conclusions at the same tip differ between the reference delivery and {:?} delivery: {}", c.style, vcore::canon(&classify(&only_a, &only_b))), format!("node{} height {}: only reference {:?} | only {:?} {:?}", c.of, b.height, only_a, c.style, only_b).chars().take(1500).collect()));
 			return;
 		}
@@ -264,7 +350,7 @@ pub fn on_block(sim: &mut Sim, copies: &mut Vec<Copy>, rng: &mut Rng, rep: &mut 
 		if ea != eb {
 			let only_a: Vec<&String> = ea.iter().filter(|x| !eb.contains(x)).take(3).collect();
 			let only_b: Vec<&String> = eb.iter().filter(|x| !ea.contains(x)).take(3).collect();
-			let rule = if c.style == Style::ShallowReorgs { "E3-shallow-reorg" } else { "E1-delivery-independence" };
+			let rule = if c.style == Style::ShallowReorgs || c.style == Style::ShallowReorgsConfirm { "E3-shallow-reorg" } else { "E1-delivery-independence" };
 			sim.raised.push(("C11".into(), rule.into(), format!("conclusive events at the same tip differ between the reference delivery and {:?} delivery: {}", c.style, vcore::canon(&classify(&only_a, &only_b))), format!("node{} height {}: only reference {:?} | only {:?} {:?}", c.of, b.height, only_a, c.style, only_b).chars().take(1500).collect()));
 			return;
 		}
